@@ -1083,13 +1083,19 @@ static void op_call(void) {
           break;
         case 3:
           mname = "restart_frame";
-          st = wuffs_base__image_decoder__restart_frame(d, 0, wuffs_base__image_config__first_frame_io_position(&ic));
+          st = wuffs_base__image_decoder__restart_frame(d, 0, (variant & 16) ? (wuffs_base__image_config__first_frame_io_position(&ic) | 13) : wuffs_base__image_config__first_frame_io_position(&ic));
           break;
         case 4:
           mname = "tell_me_more";
           { wuffs_base__more_information mi; memset(&mi, 0, sizeof mi);
             st = wuffs_base__image_decoder__tell_me_more(d, dstp, &mi, srcp); }
           break;
+        case 6: {
+          static const uint32_t fourccs[8] = {0x49434350, 0x584D5020, 0x45584946, 0x4348524D, 0x47414D41, 0x4B565020, 0x53524742, 0x4247434C};
+          mname = "set_report_metadata";
+          wuffs_base__image_decoder__set_report_metadata(d, fourccs[variant & 7], true);
+          break;
+        }
         default:
           mname = "set_quirk";
           st = wuffs_base__image_decoder__set_quirk(d, 1, 1);
